@@ -114,6 +114,26 @@ func judge(c Case, w *vkit.W) {
 			}
 		}
 	}
+	if c.S%8 == 6 || c.S < 2048 || c.S&(c.S-1) == 0 {
+		// caller buffers of every tight size: the prefix fills them entirely, or leaves less than, exactly, or a little more than
+		// the room the rendering needs
+		for _, f := range []struct {
+			flag size.Format
+			want string
+		}{{0, plain}, {size.FormatPretty, pretty}, {size.FormatPretty | size.FormatHTML, html}} {
+			for _, prefix := range []string{"x", "free space: ", "0123456789abcdef"} {
+				for _, room := range []int{0, 1, len(f.want) - 1, len(f.want), len(f.want) + 1, len(f.want) + 7} {
+					if room < 0 {
+						continue
+					}
+					buf := append(make([]byte, 0, len(prefix)+room), prefix...)
+					if out, err := size.DefaultFormatter(buf, s, f.flag); err != nil || string(out) != prefix+f.want {
+						w.Fail(c, "rendering", fmt.Sprintf("DefaultFormatter(%q in a buffer with room for %d more bytes, %d, %d) = %q, %v; want %q", prefix, room, c.S, f.flag, out, err, prefix+f.want))
+					}
+				}
+			}
+		}
+	}
 	gotS, gotP, gotH := s.String(), s.PrettyString(), string(s.PrettyHTML())
 	if gotS != plain {
 		w.Fail(c, "rendering", fmt.Sprintf("Size(%d).String() = %q want %q", c.S, gotS, plain))
